@@ -104,6 +104,7 @@ type Engine struct {
 	Stats Stats
 
 	top       *frame
+	rec       *recorder
 	rtypes    map[string]*RType
 	rtypeT    types.Type
 	debugOut  []string
@@ -952,7 +953,11 @@ func (e *Engine) visit(fr *frame, instr ssa.Instruction) continuation {
 
 	case *ssa.MakeChan:
 		n := e.concInt(fr.get(instr.Size))
-		fr.set(instr, V{K: KChan, P: &Chan{cap: int(n), elem: instr.Type().Underlying().(*types.Chan).Elem()}})
+		c := &Chan{cap: int(n), elem: instr.Type().Underlying().(*types.Chan).Elem()}
+		if e.rec != nil {
+			e.recEvent(Event{Op: "makechan", Chan: e.recChan(c), Cap: int64(n)})
+		}
+		fr.set(instr, V{K: KChan, P: c})
 
 	case *ssa.Alloc:
 		t := deref(instr.Type())
